@@ -47,7 +47,6 @@ import (
 	"os"
 	"path/filepath"
 	"regexp"
-	"runtime/pprof"
 	"sort"
 	"strings"
 	"sync"
@@ -1224,34 +1223,21 @@ func main() {
 	run := ev.Start("C12", "fault_enumeration")
 	shard, nShards, isShard := ev.Shard()
 	thorough := !run.Quick()
+	if run.Replay != "" {
+		replay(run)
+		return
+	}
 	if !isShard {
 		parent(run, thorough)
 		return
 	}
 	defer os.RemoveAll(scratch)
-	must(os.MkdirAll(scratch, 0o700), "scratch")
-	var err error
-	// database.New bounds its sandbox lock-down by a 5 s wall-clock timeout; on an overloaded machine that is a
-	// property of the machine, not of the code under test: retry
-	for try := 0; ; try++ {
-		duck, err = database.New(&database.Config{MaxConnections: 2, MemoryLimit: "512MB", ThreadCount: 1, PreserveInsertionOrder: true,
-			TempDirectory: filepath.Join(scratch, "spill"), LocalStorageRoot: scratch}, zerolog.Nop())
-		if err == nil || try >= 8 || !(strings.Contains(err.Error(), "deadline exceeded") || strings.Contains(err.Error(), "Interrupted")) {
-			break
-		}
-	}
-	must(err, "database.New")
+	setupProcess()
 	t0 := time.Now()
 	if tf := os.Getenv("VERIF_C12_TRACE"); tf != "" {
 		traceF, _ = os.Create(fmt.Sprintf("%s.%d", tf, shard))
 		defer traceF.Close()
 	}
-	if pf := os.Getenv("VERIF_C12_PROF"); pf != "" {
-		f, _ := os.Create(pf)
-		pprof.StartCPUProfile(f)
-		defer pprof.StopCPUProfile()
-	}
-	makeTemplates()
 
 	var layouts []layout
 	for _, size := range []string{"1B", "70KB"} {
@@ -1333,7 +1319,6 @@ func main() {
 	if os.Getenv("VERIF_C12_TIMING") != "" {
 		fmt.Fprintf(os.Stderr, "shard %d: %d cases in %v (query part of observe %v)\n", shard, st.cases, time.Since(t0), tObs)
 	}
-	pprof.StopCPUProfile()
 	duck.Close()
 	counters := map[string]int64{"cases": st.cases, "reached": st.reached, "bad": st.bad, "crash_states": st.crashStates,
 		"faulty_cycles": st.faultyCycles, "transient_double": st.transientDouble, "recovery_removed_hot_copy": st.reconcile,
@@ -1372,6 +1357,57 @@ func crashPlansFromLog(l layout, g *cycleLog) []*plan {
 		ps = append(ps, &plan{CrashFS: -1, Torn: -1, CrashSQL: jx, FailFS: -1, Label: "crash-before=" + e.sqlLabel(s)})
 	}
 	return ps
+}
+
+// setupProcess: scratch directory, the DuckDB instance (sandboxed to the scratch directory) and the fixtures.
+func setupProcess() {
+	must(os.MkdirAll(scratch, 0o700), "scratch")
+	var err error
+	// database.New bounds its sandbox lock-down by a 5 s wall-clock timeout; on an overloaded machine that is a
+	// property of the machine, not of the code under test: retry
+	for try := 0; ; try++ {
+		duck, err = database.New(&database.Config{MaxConnections: 2, MemoryLimit: "512MB", ThreadCount: 1, PreserveInsertionOrder: true,
+			TempDirectory: filepath.Join(scratch, "spill"), LocalStorageRoot: scratch}, zerolog.Nop())
+		if err == nil || try >= 8 || !(strings.Contains(err.Error(), "deadline exceeded") || strings.Contains(err.Error(), "Interrupted")) {
+			break
+		}
+	}
+	must(err, "database.New")
+	makeTemplates()
+}
+
+// replay re-executes the minimal case of a replay file (./check C12 quick --replay <file>) in this process.
+func replay(run *ev.Run) {
+	b, err := os.ReadFile(run.Replay)
+	must(err, "replay file")
+	var doc struct {
+		Replay struct {
+			Minimal struct {
+				Case caseDesc `json:"case"`
+			} `json:"minimal"`
+		} `json:"replay"`
+	}
+	must(json.Unmarshal(b, &doc), "replay file")
+	cd := doc.Replay.Minimal.Case
+	var l layout
+	var oc, oh, two int
+	if _, err := fmt.Sscanf(strings.NewReplacer(",", " ", "=", " ").Replace(cd.Layout), "size %s cold-sibling %d hot-sibling %d second-migrating %d", &l.Size, &oc, &oh, &two); err != nil {
+		ev.Unbound("replay file: cannot parse layout " + cd.Layout)
+	}
+	l.OtherCold, l.OtherHot, l.Two = oc == 1, oh == 1, two == 1
+	defer os.RemoveAll(scratch)
+	setupProcess()
+	traceF = os.Stdout
+	runCase(run, l, cd.Kind, cd.Plans, cd.Restart, nil)
+	duck.Close()
+	os.RemoveAll(scratch)
+	raw, _ := run.TakeViolations()
+	for _, v := range raw {
+		fmt.Printf("replayed: %s :: %s\n", v.Signature, v.Desc)
+		run.Violate(v.Signature, v.Desc, map[string]any{"minimal": v.Replay})
+	}
+	run.Coverage["evaluations"] = 1
+	run.Finish()
 }
 
 func makeTemplates() {
@@ -1456,6 +1492,10 @@ func parent(run *ev.Run, thorough bool) {
 		lays map[string]bool
 	}
 	classes := map[string]*class{}
+	rawByOracle := map[string]int{}
+	for _, it := range items {
+		rawByOracle[it.rv.Oracle] += it.n
+	}
 	for i, it := range items {
 		dominated := false
 		for k, o := range items {
@@ -1490,7 +1530,8 @@ func parent(run *ev.Run, thorough bool) {
 		sort.Strings(lays)
 		sig := key + "|" + c.best.rv.Layout
 		for i := 0; i < c.n; i++ {
-			run.Violate(sig, c.best.desc, map[string]any{"minimal": c.best.rv, "layouts_showing_it": lays, "raw_instances": c.n})
+			run.Violate(sig, c.best.desc, map[string]any{"minimal": c.best.rv, "layouts_showing_it": lays, "instances_with_this_minimal_fault_set": c.n,
+				"raw_failing_cases_with_this_oracle_incl_supersets_of_the_fault_set": rawByOracle[c.best.rv.Oracle]})
 		}
 	}
 
